@@ -57,18 +57,56 @@ class Out:
         pass
 
 
+class BadRepr(list):
+    """a value whose __repr__ (hence str) raises a prepared exception instance"""
+    pv_exc = None
+
+    def __repr__(self):
+        raise self.pv_exc
+
+
+class CallObj:
+    """a callable object: no __name__, no __qualname__"""
+    def __init__(self, fn):
+        self.fn = fn
+
+    def __call__(self, *args, **kwargs):
+        return self.fn(*args, **kwargs)
+
+
+def underlying(o):
+    """the def behind wrappers, partials and callable objects"""
+    import functools
+    for _ in range(60):
+        if isinstance(o, functools.partial):
+            o = o.func
+        elif isinstance(o, CallObj):
+            o = o.fn
+        elif hasattr(o, '__wrapped__'):
+            o = o.__wrapped__
+        else:
+            break
+    return o
+
+
 class World:
     """objects of one case"""
-    def __init__(self):
+    def __init__(self, bad=None):
         self.tok = {}
         self.back = {}
         self.keep = []
+        self.bad = {int(k): v for k, v in (bad or {}).items()}     # token -> class path its __repr__ raises
 
     def T(self, code):
         if code is None:
             return None
         if code not in self.tok:
-            o = [code % 10]
+            if code in self.bad:
+                o = BadRepr([code % 10])
+                o.pv_exc = excs.cls_of(self.bad[code])('repr of %d' % code)
+                self.reg(o.pv_exc, [7, 2000 + code])
+            else:
+                o = [code % 10]
             self.tok[code] = o
             self.back[id(o)] = code
         return self.tok[code]
@@ -211,9 +249,11 @@ def count_wrappers(top):
 
 def run_stack(case):
     import pedantic.decorators as pd
-    w = World()
+    import functools
+    w = World(case.get('badrepr'))
     res = {}
     redeco = case.get('redeco', [])
+    nameless = case.get('nameless')
     for decorated in (False, True):
         events, journal = [], []
         holder = {'ccs': []}
@@ -256,6 +296,8 @@ def run_stack(case):
                 ns['f'] = obj
         try:
             load(render(case, decorated), ns)
+            if nameless:                        # what gets decorated is a partial / a callable object, not the def
+                ns['f'] = functools.partial(ns['f']) if nameless == 'partial' else CallObj(ns['f'])
             if decorated and case.get('apply', '@') == 'call':      # f = d1(d2(f)), no decorator lines in the source
                 apply_by_call(case['stack'], 0)
         except BaseException as ex:
@@ -269,10 +311,9 @@ def run_stack(case):
         def current():
             return (getattr(inst, 'f'), ns['K'].__dict__['f']) if inst is not None else (ns['f'], ns['f'])
         fn, raw = current()
-        inner = inspect.unwrap(raw)
-        codes = {inner.__code__: 0}
+        codes = {underlying(raw).__code__: 0}
         if 'other' in ns:
-            codes[inspect.unwrap(ns['other']).__code__] = 1
+            codes[underlying(ns['other']).__code__] = 1
         holder['ccs'] = count_wrappers(raw)
         results, cnts = [], []
         out = {}
@@ -293,7 +334,7 @@ def run_stack(case):
                             break
                         if decorated:
                             if 'twin_fn' in res:
-                                out['meta'] = meta_of(raw, res['twin_fn'])
+                                out['meta'] = meta_of(raw, res['twin_fn'], nameless)
                             # decoration as an operation inside the history: wrap the used callable again
                             apply_by_call(redeco, 100)
                             fn, raw = current()
@@ -313,7 +354,7 @@ def run_stack(case):
         if decorated:
             t = res.get('twin_fn')
             if t is not None:
-                out['meta2'] = meta_of(raw, t)
+                out['meta2'] = meta_of(raw, t, nameless)
                 out.setdefault('meta', out['meta2'])
         else:
             res['twin_fn'] = raw
@@ -322,7 +363,10 @@ def run_stack(case):
     return res
 
 
-def meta_of(dec, twin):
+def meta_of(dec, twin, nameless=None):
+    if nameless:       # nothing to preserve: the decorated callable has no __name__ / __qualname__ of its own
+        return {'name': True, 'qualname': True, 'doc': True, 'module': True, 'wrapped': True, 'same_object': dec is twin,
+                'iscoro': bool(inspect.iscoroutinefunction(dec)), 'twin_iscoro': bool(inspect.iscoroutinefunction(twin))}
     m = {a: getattr(dec, '__%s__' % a, '<missing>') == getattr(twin, '__%s__' % a, '<missing2>')
          for a in ('name', 'qualname', 'doc', 'module')}
     m['iscoro'] = bool(inspect.iscoroutinefunction(dec))
@@ -406,13 +450,15 @@ def class_src(case, decorated):
     elif m == 'prop':
         src += '    @property\n'
     src += fn_src('f', s2, is_async, 0, indent='    ')
+    if case.get('own_repr'):          # the class has its own __repr__ / __str__ (decorated like every other method)
+        src += f'    def __{case["own_repr"]}__(self):\n        return "an instance"\n'
     src += 'class Sub(K):\n    pass\n'
     return src
 
 
 def run_class(case):
     import pedantic.decorators as pd
-    w = World()
+    w = World(case.get('badrepr'))
     res = {}
     for decorated in (False, True):
         events, journal, counts = [], [], {0: 0}
